@@ -255,6 +255,7 @@ struct Ctx {
   std::vector<std::string> notes;
 
   int journal_fd = -1;
+  time_t last_flush = 0;
   const std::string* cur_text = nullptr;
   uint64_t cur_hash = 0;
   bool cur_hash_valid = false;
@@ -344,8 +345,18 @@ inline std::string exception_name(const std::exception& e) {
 
 // Execute one case through the oracle. Returns true when it passed (or failed
 // with a known-finding signature, which is counted under `excluded`).
+inline void write_results();
+
 inline bool exec(const SubCheck& sc, const Case& c, bool light = false) {
   Ctx& x = ctx();
+  // keep the result file fresh (every ~5 s) so that a shard stopped at its time budget still reports what it covered
+  if ((x.evaluations & 0xFF) == 0 && x.journal_fd >= 0) {
+    time_t now = time(nullptr);
+    if (now - x.last_flush >= 5) {
+      x.last_flush = now;
+      write_results();
+    }
+  }
   std::string text;
   if (!light) {
     text = c.encode();
